@@ -259,8 +259,8 @@ def mirror(point: PointType, normal: VectorType, origin: PointType):
     normal = unit_vector(normal)
     origin = np.asarray(origin)
 
-    point -= origin
-    rotated = point.dot(mirror_matrix(normal))
+    # (don't modify the passed array)
+    rotated = (point - origin).dot(mirror_matrix(normal))
     rotated += origin
 
     return rotated
